@@ -140,6 +140,7 @@ func demuxCheck(cs *flvCase, bodies [][]byte, data []byte, which, mode string, s
 		return fmt.Errorf("%s: ReadHeader = (version %d, hasVideo %v, hasAudio %v), want (%d, %v, %v)",
 			where, ver, hv, ha, cs.Hdr.Version, cs.Hdr.Video, cs.Hdr.Audio)
 	}
+	var held [][]byte
 	for k, t := range cs.Tags {
 		tt, size, ts, err := d.ReadTagHeader()
 		if err != nil {
@@ -155,6 +156,13 @@ func demuxCheck(cs *flvCase, bodies [][]byte, data []byte, which, mode string, s
 		}
 		if !bytes.Equal(body, bodies[k]) {
 			return fmt.Errorf("%s: tag %d: body differs from the body written: %s", where, k+1, rp.FirstDiff(body, bodies[k]))
+		}
+		held = append(held, body)
+	}
+	// a tag handed out stays what it was while later tags are read (no recycled buffers)
+	for k, body := range held {
+		if !bytes.Equal(body, bodies[k]) {
+			return fmt.Errorf("%s: tag %d: its body changed after later tags were read: %s", where, k+1, rp.FirstDiff(body, bodies[k]))
 		}
 	}
 	// the end: no further tag, an EOF-class error, every byte consumed
